@@ -11,7 +11,7 @@ import json
 
 from . import rng as R
 from . import store as S
-from .data import decode_value, flavour_of
+from .data import dhash, decode_value, flavour_of
 from .gen import draw_cfg, gen_op
 from .history import new_world, run_step
 from .world import Violation, real_children
@@ -19,7 +19,7 @@ from .world import Violation, real_children
 KEY_MAPS = [None, {"data_id": "i", "str": "s"}, {"data_id": "i", "str": "s", "kind": "k",
                                                    "type": "t", "name": "n", "age": "a"},
             {"type": "ty", "v": "value"}]
-VALUE_MAPS = [None, {"type": ["int", "tup", "person", "obj", "wrap"]}]
+VALUE_MAPS = [None, {"type": ["int", "tup", "person", "obj", "wrap", "udict"]}]
 
 
 # ------------------------------------------------------------------------------
@@ -39,6 +39,8 @@ def _dsym(obj):
         return f"o:{obj.guid}:{obj.label}"
     if f == "f":
         return f"f:{obj.name}:{obj.is_dir}:{obj.size}:{obj.mdate}"
+    if f == "u":
+        return f"u:{obj['guid']}:{obj['u']}"
     return f"w:{obj._dict}"
 
 
@@ -52,7 +54,7 @@ def canon_of_model(mt):
         for c in m.children:
             pos[id(c)] = len(pos)
             groups.setdefault(c.did, []).append(pos[id(c)])
-            custom = c.did != hash(c.data)  # only custom ids are stored in a document
+            custom = c.did != dhash(c.data)  # only custom ids are stored in a document
             res.append([_dsym(c.data), c.kind if mt.typed else None,
                         repr(c.did) if custom else None, rec(c)])
         return res
